@@ -161,7 +161,7 @@ def _install_common(it, cache_checks):
     it.module_env(O).vars["_selector_fit_cache"] = cache
 
 
-@unit("proceed", ["C03", "C07", "C04", "C09", "C02", "C12", "C06", "C13", "C05"], [PROCEED, O + ":HandlerCollection.__init__", I + ":Interactor.__init__"], replay=_replay_file("c03_proceed.py"),
+@unit("proceed", ["C03", "C07", "C04", "C09", "C02", "C12", "C06", "C13", "C05", "C11", "C16"], [PROCEED, O + ":HandlerCollection.__init__", I + ":Interactor.__init__"], replay=_replay_file("c03_proceed.py"),
       assumed=["fits_selector is used through its contract (deterministic function of (fn, selector): False or a capture map)",
                "Interactor.register is used through its contract (one ghost event per call)",
                "accumulator.fork() of an opaque accumulator returns a fresh accumulator determined by the history"])
@@ -208,7 +208,7 @@ def u_proceed(c):
                                                                           it.to_val(v) == Val.ref(p_cm(i)) if v is not False else True), kind="auxiliary")
 
 
-@unit("proceed-bounded", ["C03", "C07", "C04", "C09", "C02", "C12", "C06", "C13", "C05"], [PROCEED], mode="bounded", bound="2 pending pairs (own accumulators, or siblings sharing one), <=1 child each, all flag combinations",
+@unit("proceed-bounded", ["C03", "C07", "C04", "C09", "C02", "C12", "C06", "C13", "C05", "C11", "C16"], [PROCEED], mode="bounded", bound="2 pending pairs (own accumulators, or siblings sharing one), <=1 child each, all flag combinations",
       fallback_for="proceed", max_paths=20000, replay=_replay_file("c03_proceed.py"))
 def u_proceed_b(c):
     """Bounded stand-in for 'proceed' with concrete flags (no solver involved): compared against the same meaning computed in Python."""
@@ -301,7 +301,7 @@ def u_proceed_b(c):
 # ---------------------------------------------------------------------------------------------
 # Interactor.register / exit
 # ---------------------------------------------------------------------------------------------
-@unit("register", ["C03", "C07", "C02"], [I + ":Interactor.register"], mode="bounded",
+@unit("register", ["C03", "C07", "C02", "C04", "C06", "C09", "C11", "C12", "C13", "C16"], [I + ":Interactor.register"], mode="bounded",
       bound="capture map with <=2 elements x <=2 names (concrete spine, symbolic members)")
 def u_register(c):
     """accumulators'[v] = old[v] ++ [(el, acc) for el in capmap (in order), once per occurrence of v in capmap[el]];
@@ -373,7 +373,7 @@ def _ce_uf(it, f, args, kwargs):
     return concretize(SBool(fs_ce(it.to_val(el), it.to_val(name), it.to_val(cat))))
 
 
-@unit("fits_selector", ["C03", "C10", "C11", "C06", "C02", "C09", "C05"], [O + ":fits_selector"], mode="bounded",
+@unit("fits_selector", ["C03", "C10", "C11", "C06", "C02", "C09", "C05", "C04", "C07", "C12", "C13", "C16"], [O + ":fits_selector"], mode="bounded",
       bound="<=2 captures per selector level, <=3 variables in the function table (concrete spine, symbolic matching)")
 def u_fits(c):
     """fits_selector(fn, sel) is False iff the function element mismatches (name / return-annotation tag) or some capture
@@ -458,7 +458,7 @@ def _own_pairs_term():
     return M.seq_map(handlers_t, M.mk_tuple2(attr_selector(M.HOLE), M.HOLE))
 
 
-@unit("BaseOverlay.enter-exit", ["C05", "C17", "C09"], [O + ":BaseOverlay.__enter__", O + ":BaseOverlay.__exit__", O + ":HandlerCollection.plus",
+@unit("BaseOverlay.enter-exit", ["C05", "C17", "C09", "C02", "C03", "C04", "C06", "C07", "C11", "C12", "C13", "C14", "C16"], [O + ":BaseOverlay.__enter__", O + ":BaseOverlay.__exit__", O + ":HandlerCollection.plus",
                                                 O + ":HandlerCollection.__init__"],
       assumed=["contextvars.ContextVar: get() returns the current value (or the default), set(v) returns a token remembering the previous value, reset(token) restores it"])
 def u_overlay_enter_exit(c):
@@ -526,7 +526,7 @@ def u_overlay_enter_exit(c):
     c.prove("exit/LIFO-restores-previous", var.value is prev)
 
 
-@unit("BaseOverlay.exit-nonlifo", ["C05", "C09", "C02", "C17", "C07", "C03", "C04", "C14"], [O + ":BaseOverlay.__enter__", O + ":BaseOverlay.__exit__", O + ":HandlerCollection.plus"], mode="bounded",
+@unit("BaseOverlay.exit-nonlifo", ["C05", "C09", "C02", "C17", "C07", "C03", "C04", "C14", "C06", "C11", "C12", "C13", "C16"], [O + ":BaseOverlay.__enter__", O + ":BaseOverlay.__exit__", O + ":HandlerCollection.plus"], mode="bounded",
       bound="overlay with 1-2 handlers, 0-1 pairs installed before it, 1-2 pairs installed after it (all orders of exit); the later / earlier "
             "handlers may carry the very same (interned) selector object as an own handler")
 def u_overlay_exit_nonlifo(c):
@@ -574,12 +574,16 @@ ev_proceed = z3.Function("ev_proceed", Val, Val, Val)
 ev_exit = z3.Function("ev_itor_exit", Val, Val)
 
 
-@unit("proceed.enter-exit", ["C03", "C07", "C09", "C05"], [O + ":proceed.__init__", O + ":proceed.__enter__", O + ":proceed.__exit__"],
-      assumed=["contextvars.ContextVar token semantics", "HandlerCollection.proceed used through its contract"])
+@unit("proceed.enter-exit", ["C03", "C07", "C09", "C05", "C02", "C06", "C04"], [O + ":proceed.__init__", O + ":proceed.__enter__", O + ":proceed.__exit__", O + ":proceed.suspend",
+                                                                            O + ":proceed.resume"],
+      assumed=["contextvars.ContextVar get / set semantics", "HandlerCollection.proceed used through its contract",
+               "a generator's yields go through proceed.yielding, which calls suspend before the generator is suspended and resume when it is resumed by "
+               "next / send / throw / close (bounded: scenario generator_shell_is_transparent; the rewriting: visit_Yield/yield/the-frame-does-the-yield)"])
 def u_proceed_enter_exit(c):
-    """with proceed(fn): __enter__ sets current to the collection returned by (current or empty).proceed(fn) and yields
-    its interactor; __exit__ (normal or exceptional) restores the collection that was current at entry and calls
-    interactor.exit() exactly once; if other code changed `current` meanwhile (suspended generator), its value must survive."""
+    """with proceed(fn): __enter__ sets current to the collection returned by (current or empty).proceed(fn) and yields its interactor;
+    __exit__ (normal or exceptional) puts back the collection of the surrounding code and calls interactor.exit() exactly once.
+    While the activation is SUSPENDED (a generator at a yield) the surrounding code has its own handlers back, whatever it installs
+    meanwhile survives the resumption and the end of the activation, and activations may end in any order."""
     it = Interp(c)
     HC, var = _current_var(it)
     fn = SymObj("fn", Val.ref(z3.IntVal(c.new_id())))
@@ -601,10 +605,15 @@ def u_proceed_enter_exit(c):
         return (itor, new)
 
     it.policies[PROCEED] = proceed_summary
+    P_ = it.get_global(O, "proceed")
+    has = all(P_.lookup(n)[0] is not None for n in ("suspend", "resume"))
+    c.prove("the-frame-can-be-suspended-and-resumed", has, note="proceed.suspend / proceed.resume")
+    if not has:
+        return
     had = c.choose(2)
     prev = mk_obj(it, O, "HandlerCollection", handler_pairs=[("s", "a")]) if had else None
     var.value = prev
-    p = it.call(it.get_global(O, "proceed"), [fn], {})
+    p = it.call(P_, [fn], {})
     st, got = run(it, it.getattr(p, "__enter__"), [])
     c.prove("enter/no-raise", st == "ok")
     if st != "ok":
@@ -614,7 +623,7 @@ def u_proceed_enter_exit(c):
     c.prove("enter/installs-new-and-yields-interactor", var.value is new and got is itor)
     exc = c.choose(2)
     args = [None, None, None] if not exc else [ValueError, ValueError("boom"), None]
-    scen = c.choose(4)
+    scen = c.choose(5)
     if scen == 3:
         # a close handler raises while the activation ends: the exception propagates, and the collection that was current
         # at entry is restored all the same (a block left by an exception leaves no handler installed)
@@ -632,15 +641,22 @@ def u_proceed_enter_exit(c):
         c.prove("exit/collection-restored-even-if-a-close-handler-raises", var.value is prev)
         return
     if scen == 2:
-        # a SECOND activation (another generator) was entered after this one and is still suspended when this one ends:
-        # the surrounding code never changed its handlers, so it must get back the collection it had at entry
-        p2 = it.call(it.get_global(O, "proceed"), [fn], {})
+        # a SECOND activation (another generator) was entered after this one and is suspended when this one ends, and is resumed and
+        # ends later: the surrounding code never changed its handlers, so it has the collection it had at entry at every moment
+        p2 = it.call(P_, [fn], {})
         st2, _ = run(it, it.getattr(p2, "__enter__"), [])
-        c.prove("second/enter-no-raise", st2 == "ok" and var.value is c.__dict__["made"][1] and var.value is not new)
+        itor2, new2 = c.__dict__["made"]
+        c.prove("second/enter-no-raise", st2 == "ok" and var.value is new2 and var.value is not new)
+        st2, _ = run(it, it.getattr(P_, "suspend"), [itor2])
+        c.prove("second/suspended:the-first-activation's-handlers-are-current-again", st2 == "ok" and var.value is new)
         st, r = run(it, it.getattr(p, "__exit__"), args)
         c.prove("exit/no-raise", st == "ok")
         c.prove("exit/earlier-activation-ending-first-restores-the-surrounding-context", var.value is prev)
         c.prove("exit/interactor.exit-once", len(itor.attrs["_exits"]) == 1)
+        st2, _ = run(it, it.getattr(P_, "resume"), [itor2])
+        c.prove("second/resumed-later:its-own-handlers-current", st2 == "ok" and var.value is new2)
+        st2, _ = run(it, it.getattr(p2, "__exit__"), [None, None, None])
+        c.prove("second/ends-later:the-surrounding-context-is-what-it-was", st2 == "ok" and var.value is prev)
         return
     if scen == 0:
         st, r = run(it, it.getattr(p, "__exit__"), args)
@@ -648,14 +664,32 @@ def u_proceed_enter_exit(c):
         c.prove("exit/restores-collection-at-entry", var.value is prev)
         c.prove("exit/interactor.exit-once", len(itor.attrs["_exits"]) == 1)
         c.prove("exit/does-not-swallow-exceptions", not it.truth(r))
-    else:
-        # the activation was suspended (generator) and the surrounding code installed X meanwhile
-        X = mk_obj(it, O, "HandlerCollection", handler_pairs=[("x", "x")])
-        var.value = X
-        st, r = run(it, it.getattr(p, "__exit__"), args)
-        c.prove("exit/no-raise", st == "ok")
-        c.prove("exit/interactor.exit-once", len(itor.attrs["_exits"]) == 1)
-        c.prove("exit/non-LIFO-does-not-disturb-surrounding-handlers", var.value is X, only=["C09", "C05"])
+        return
+    # the activation is a generator that is suspended k times; each time the surrounding code may install something else (an overlay
+    # entered or left, a probe activated or deactivated, another generator advanced)
+    k = 1 + c.choose(2, "suspensions")
+    surrounding = prev
+    for j in range(k):
+        st, _ = run(it, it.getattr(P_, "suspend"), [itor])
+        c.prove(f"suspend{j}/the-surrounding-code-has-its-handlers-back", st == "ok" and var.value is surrounding)
+        what = c.choose(3, "meanwhile")  # 0 nothing, 1 something else installed, 2 everything removed
+        if what == 1:
+            surrounding = mk_obj(it, O, "HandlerCollection", handler_pairs=[("x", j)])
+            var.value = surrounding
+        elif what == 2:
+            surrounding = None
+            var.value = None
+        if scen == 4 and j == k - 1:
+            break  # the generator is dropped / closed while suspended: resume happens as part of the close (assumption above)
+        st, _ = run(it, it.getattr(P_, "resume"), [itor])
+        c.prove(f"resume{j}/the-activation's-handlers-are-current-again", st == "ok" and var.value is new)
+    if scen == 4:
+        st, _ = run(it, it.getattr(P_, "resume"), [itor])
+        c.prove("close-while-suspended/resume-then-exit", st == "ok" and var.value is new)
+    st, r = run(it, it.getattr(p, "__exit__"), args)
+    c.prove("exit/no-raise", st == "ok")
+    c.prove("exit/interactor.exit-once", len(itor.attrs["_exits"]) == 1)
+    c.prove("exit/non-LIFO-does-not-disturb-surrounding-handlers", var.value is surrounding, note=f"current after the end: {var.value!r}, the surrounding code had {surrounding!r}")
 
 
 @unit("proceed.exit-propagates", ["C01", "C06", "C07", "C02"], [O + ":proceed.__exit__"], replay=_replay_file("c01_exit_propagates.py"),
